@@ -22,6 +22,7 @@ func init() {
 			{ID: "C15.R3", Floor: 8, Run: c15r3, Text: "node reset: retire co-updates (= C06.R2) and shrink ⇒ zero (= C06.R3) hold for the functions Reset reaches"},
 			{ID: "C15.R4", Floor: 4, Run: c07r2, Text: "cache list ⇄ position bookkeeping (= C07.R2): needed because Reset re-issues entity handles, so tables are added for a target after one was removed"},
 			{ID: "C15.R5", Floor: 2, Run: c15r5, Text: "element-wise reset loops in the reset chain range over the whole slice they clear (index from 0, bound len of the same slice)"},
+			{ID: "C15.R6", Floor: 8, Run: c03r3, Text: "table selection by activity, not by length (= C03.R3): after Reset tables exist but are empty; filters registered then must still receive them"},
 		},
 	})
 }
